@@ -347,44 +347,46 @@ func (a *Ctx) CombineViews(b *Ctx) {
 			bBest[k] = o.Verdict // the worst verdict of the inlined view for this key
 		}
 	}
-	// vacuity guard for rescues: a rule group that finds fewer constructs on the inlined view
-	// than on the source as written has lost its grip there (e.g. it classifies return
-	// statements that the expansion turned into assignments): its discharges do not count
-	// (several violations under one key - one per failing table row, say - count once)
-	weigh := func(obs []Obligation) map[string]int {
-		n := map[string]int{}
-		seenV := map[string]bool{}
-		for _, o := range obs {
-			if o.Verdict == Violation {
-				if k := o.Rule + "|" + o.Construct; !seenV[k] {
-					seenV[k] = true
-					n[o.Rule]++
-				}
-				continue
+	// vacuity guard for rescues: the instance counts confirmed on the reference tree (Min) are
+	// the measure of whether a rule group still has its grip on the inlined view (it may lose it,
+	// e.g. when it classifies return statements that the expansion turned into assignments): a
+	// group whose minimum is not met there does not rescue anything
+	group := func(rule string) string { return strings.TrimPrefix(rule, a.Prop+".") }
+	minOK := func(rule string) bool {
+		g := group(rule)
+		for _, m := range b.minimums {
+			if strings.HasPrefix(m.rule, g) && m.got < m.want {
+				return false
 			}
-			n[o.Rule]++
 		}
-		return n
+		return true
 	}
-	nA, nB := weigh(a.Obs), weigh(b.Obs)
-	// keys of a: upgraded when the inlined view discharges every instance of the key
-	for k, is := range idx {
-		bv, ok := bBest[k]
-		if !ok {
-			continue
+	bad, good := map[string]int{}, map[string]int{}
+	for _, o := range b.Obs {
+		if o.Verdict == Discharged {
+			good[o.Rule]++
+		} else {
+			bad[o.Rule]++
 		}
-		if nB[k.rule] < nA[k.rule] {
+	}
+	for k, is := range idx {
+		bv, haveKey := bBest[k]
+		groupClean := bad[k.rule] == 0 && good[k.rule] > 0
+		if !minOK(k.rule) {
 			continue
 		}
 		for _, i := range is {
 			o := &a.Obs[i]
 			switch {
 			case o.Verdict == Discharged:
-			case bv == Discharged:
+			case haveKey && bv == Discharged:
 				o.Detail = "discharged on the inlined view (as written: " + o.Verdict + " - " + o.Detail + ")"
 				o.Verdict = Discharged
-			case o.Verdict == Undecided && bv == Violation && os.Getenv("GMSL_INLINE_ADD") != "":
-				// the inlined view found positive evidence
+			case !haveKey && groupClean && o.Verdict == Violation:
+				// the rule group decides everything on the inlined view and reports nothing there
+				o.Detail = "the rule group holds on the inlined view (as written: violation - " + o.Detail + ")"
+				o.Verdict = Discharged
+			case haveKey && o.Verdict == Undecided && bv == Violation && os.Getenv("GMSL_INLINE_ADD") != "":
 				for _, bo := range b.Obs {
 					if bo.Rule == k.rule && bo.Construct == k.construct && bo.Verdict == Violation {
 						o.Verdict, o.Detail, o.Pos = Violation, bo.Detail+" [inlined view]", bo.Pos
